@@ -274,12 +274,17 @@ def generate(rng, index, cfg):
                 ex["body"] = jbody(dict(extra, merged=upload_pool[ex["nb"]]))
             else:
                 ex["kind"] = "store_malformed"
-                k = rng.choice(["v99", "no_merged", "string", "list", "badjson", "cells_int", "half_nb"])
+                k = rng.choice(["v99", "no_merged", "string", "list", "badjson", "cells_int", "half_nb", "surrogate", "surrogate"])
                 bodies = {"v99": dict(extra, merged={"nbformat": 99}), "no_merged": dict(extra, notebook=upload_pool[0]),
                           "string": dict(extra, merged="a.ipynb"), "list": dict(extra, merged=[1, 2]),
                           "cells_int": dict(extra, merged={"cells": 5, "nbformat": 4, "nbformat_minor": 4, "metadata": {}}),
                           "half_nb": dict(extra, merged={"nbformat": 4})}
-                ex["body"] = '{"merged": {"cells": [' if k == "badjson" else jbody(bodies[k])
+                if k == "surrogate":
+                    # valid JSON, but the text cannot be encoded as UTF-8 (a lone surrogate escape)
+                    ex["body"] = jbody(dict(extra, merged={"cells": [{"cell_type": "markdown", "metadata": {}, "source": "lone SURROGATE here"}],
+                                                           "metadata": {}, "nbformat": 4, "nbformat_minor": 4})).replace("SURROGATE", "\\ud800")
+                else:
+                    ex["body"] = '{"merged": {"cells": [' if k == "badjson" else jbody(bodies[k])
         elif r < 0.80:
             ex["path"] = "/api/closetool"
             code = rng.choice([0, 1, 3, 7])
@@ -317,7 +322,7 @@ def generate(rng, index, cfg):
                 ex["path"] = rng.choice(["/api/nothing", "/api/diff/extra", "/api", "/apidiff"])
                 ex["body"] = jbody({"base": "a.ipynb", "remote": "b.ipynb"})
             elif k == "bad_method":
-                ex["method"] = rng.choice(["PUT", "DELETE", "GET"])
+                ex["method"] = rng.choice(["PUT", "DELETE", "GET", "HEAD", "OPTIONS", "PATCH"])
                 ex["path"] = rng.choice(["/api/diff", "/api/store", "/api/merge"])
             elif k == "no_prefix":
                 ex["path"] = "/api/diff"
@@ -331,6 +336,17 @@ def generate(rng, index, cfg):
                 ex["path"] = "/static/../../../nbmergeapp.py"
             else:
                 ex["raw"] = "\x16\x03\x01 this is not http\r\n\r\n"
+        if ex["kind"] in ("diff_valid", "merge_valid") and rng.random() < 0.2:
+            # the same request in another legal JSON spelling: escaped characters, a duplicate key (the last one counts)
+            def esc(sv):
+                return "".join("\\u%04x" % ord(ch) for ch in sv)
+            parts = []
+            items = list(ex["args"].items())
+            if rng.random() < 0.5:
+                parts.append('"%s": "decoy.ipynb"' % items[0][0])
+            for k2, v2 in items:
+                parts.append('"%s": "%s"' % (esc(k2) if rng.random() < 0.3 else k2, esc(v2) if isinstance(v2, str) else v2))
+            ex["body"] = "{ " + " ,\n ".join(parts) + " , \"zz\": 1e999, \"deep\": " + "[" * 30 + "]" * 30 + " }"
         if ex.get("path", "").startswith("/api/") and "?" not in ex["path"] and rng.random() < 0.2:
             ex["path"] += "?" + rng.choice(["cwd=..%2Foutside", "cwd=sub", "workdirectory=%2Ftmp", "base=c.ipynb&remote=c.ipynb",
                                             "outputfilename=evil.ipynb", "closable=true", "persist=false", "base_url=%2Fother"])
@@ -683,7 +699,7 @@ class Runner:
                 aborted = "close_early"
             resp = None
             if aborted in (None, "stall", "close_early"):
-                resp = await read_response(link, 30.0 if aborted is None else 5.0)
+                resp = await read_response(link, 30.0 if aborted is None else 5.0, no_body=(ex.get("method") == "HEAD"))
                 self.delivery_log.append((ci, "r"))
             else:
                 # let the server notice
@@ -950,6 +966,16 @@ class Runner:
     # ---------------- the director
     async def director(self):
         from tornado.ioloop import IOLoop
+        try:
+            await self._director()
+        except BaseException as e:     # a harness bug must surface, not leave the loop idle forever
+            import traceback
+            self.director_error = traceback.format_exc()
+            self.forced_stop = True
+            IOLoop.current().stop()
+
+    async def _director(self):
+        from tornado.ioloop import IOLoop
         tasks = [self.loop.create_task(self.client(ci, spec), name="client-%d" % ci) for ci, spec in enumerate(self.trace["clients"])]
         await asyncio.gather(*tasks)
         # W6: bounded liveness once faults have stopped
@@ -1027,6 +1053,8 @@ class Runner:
         self.main_returned = rc
         self.log.ev("end", outcome=outcome, rc=rc, forced=self.forced_stop, vtime=round(self.loop.time(), 3))
         sig = {"kind": "session", "mode": self.trace["world"]["mode"]}
+        if getattr(self, "director_error", None):
+            raise HarnessError("simulated clients failed: " + self.director_error[-1500:])
         if outcome != "returned":
             raise HarnessError("server entry point ended with %s (rc %r): %s" % (outcome, rc, sink.getvalue()[-500:]))
         # W5
